@@ -146,16 +146,19 @@ impl Action for DefaultOf {
     }
 }
 
-struct Leak<'a> { proto: Proto, input: &'a [u8], out: String }
+struct Leak<'a> { proto: Proto, input: &'a [u8], out: String, leaks: Vec<usize>, accepted_prefix: Option<usize> }
 impl<'a> Action for Leak<'a> {
     fn run<T: Message + Debug + 'static>(&mut self, _d: Option<fn() -> T>) {
         // warm up once so that lazily initialised statics do not count
         { let _ = decode_with::<T>(self.proto, self.input); }
-        let before = LIVE.load(Ordering::Relaxed);
-        let failed;
-        { let (r, _) = decode_with::<T>(self.proto, self.input); failed = r.is_err(); drop(r); }
-        let after = LIVE.load(Ordering::Relaxed);
-        self.out = if failed { format!("err leaked={}", after - before) } else { format!("ok leaked={}", after - before) };
+        for cut in 0..self.input.len() {
+            let before = LIVE.load(Ordering::Relaxed);
+            let failed;
+            { let (r, _) = decode_with::<T>(self.proto, &self.input[..cut]); failed = r.is_err(); drop(r); }
+            let after = LIVE.load(Ordering::Relaxed);
+            if failed { if after != before { self.leaks.push(cut); } } else if self.accepted_prefix.is_none() { self.accepted_prefix = Some(cut); }
+        }
+        self.out = format!("ok n={} leaks={}", self.input.len(), if self.leaks.is_empty() { "-".to_string() } else { self.leaks.iter().map(|x| x.to_string()).collect::<Vec<_>>().join(",") });
     }
 }
 
@@ -219,7 +222,7 @@ fn exec(verb: &str, items: &[Sexp], o: &mut Oracle) -> Option<String> {
             let mut idx = 4;
             let mut chunks = vec![];
             if verb == "ga" { let Some(c) = a(4) else { return bad() }; chunks = if c == "-" { vec![] } else { c.split(',').filter_map(|x| x.parse().ok()).collect() }; idx = 5; }
-            let input: Vec<u8> = if verb == "gb" || verb == "gl" { let Some(h) = a(idx).and_then(unhex) else { return bad() }; h }
+            let input: Vec<u8> = if verb == "gb" { let Some(h) = a(idx).and_then(unhex) else { return bad() }; h }
             else {
                 let Some(v) = items.get(idx).and_then(Val::of_sexp) else { return bad() };
                 match write_all(proto, BufK::Bm, StrApi::Bytes, &[v]) { Ok(w) => w.bytes, Err(_) => return Some("err-input".into()) }
@@ -227,8 +230,9 @@ fn exec(verb: &str, items: &[Sexp], o: &mut Oracle) -> Option<String> {
             let expect = items.iter().position(|x| x.atom() == Some("=>")).and_then(|i| items.get(i + 1));
             let out;
             match verb {
-                "gl" => { let mut act = Leak { proto, input: &input, out: String::new() }; if !dispatch(doc, ty, &mut act) { return Some("unknown-type".into()); } out = act.out;
-                          if out.starts_with("err") && !out.ends_with("leaked=0") { o.fail("C19", format!("failed decode of {}::{} leaves heap bytes: {}", doc, ty, out)); } }
+                "gl" => { let mut act = Leak { proto, input: &input, out: String::new(), leaks: vec![], accepted_prefix: None }; if !dispatch(doc, ty, &mut act) { return Some("unknown-type".into()); } out = act.out;
+                          if !act.leaks.is_empty() { o.fail("C19", format!("failed decode of {}::{} under {} leaves heap memory or buffer references behind when the input is cut at {:?}", doc, ty, proto.name(), act.leaks)); }
+                          if let Some(c) = act.accepted_prefix { o.fail("C09", format!("strict prefix of length {} of a valid {}::{} encoding is accepted under {}", c, doc, ty, proto.name())); } }
                 "ga" => { let mut act = AsyncDec { proto, input: &input, chunks, o, out: String::new() }; if !dispatch(doc, ty, &mut act) { return Some("unknown-type".into()); } out = act.out; }
                 _ => { let mut act = Recode { proto, input: &input, o, out: String::new(), keep: doc.ends_with('k') }; if !dispatch(doc, ty, &mut act) { return Some("unknown-type".into()); } out = act.out; }
             }
